@@ -189,6 +189,27 @@ def _hook(fn, *a):
         raise ShapeChanged(f"the loop invariant of the contract refers to a local variable the code no longer has: {e}")
 
 
+def _concrete_key(k):
+    if isinstance(k, Poly) and k.is_const():
+        v = k.to_python()
+        return v
+    if isinstance(k, Poly) and all(v.kind in ("pi", "invpi") for v in k.vars()):
+        # a rational multiple of pi: the float the same expression evaluates to natively (linear forms q * pi: one rounding of the product, as in `pi / 2`)
+        lf = k.linear_form()
+        if lf is not None and len(lf[0]) == 1 and lf[1] == 0:
+            q = next(iter(lf[0].values()))
+            if q.denominator == 1:
+                return float(int(q) * math.pi)
+            if q.numerator in (1, -1):
+                return float(q.numerator * math.pi / q.denominator)
+            return float(math.pi * q.numerator / q.denominator)
+        z = k.eval({})
+        return z.real if abs(z.imag) < 1e-300 else z
+    if isinstance(k, tuple):
+        return tuple(_concrete_key(x) for x in k)
+    return k
+
+
 def _target_names(t):
     if isinstance(t, ast.Name):
         return {t.id}
@@ -772,6 +793,10 @@ class Interp:
         return self._native(f, args, kwargs)
 
     def _native(self, f, args, kwargs):
+        # dictionary look-ups with a key that holds an exact CONSTANT (e.g. the symbolic pi / 2): native tables are keyed by the floats the same expressions
+        # evaluate to, so the key is converted to that float (symbolic, non-constant keys stay as they are)
+        if isinstance(getattr(f, "__self__", None), dict) and getattr(f, "__name__", "") in ("get", "pop", "setdefault", "__contains__", "__getitem__") and args:
+            args = [_concrete_key(args[0])] + list(args[1:])
         symbolic = has_sym(args) or has_sym(kwargs)
         try:
             return f(*args, **kwargs)
@@ -1060,6 +1085,8 @@ class Interp:
                 if e is x or truth(self.py_eq(e, x)):
                     return True
             return False
+        if isinstance(x, tuple) and isinstance(container, (set, frozenset, dict)):
+            x = _concrete_key(x)
         if isinstance(x, Poly):
             if x.is_const():
                 x = x.to_python()
@@ -1555,6 +1582,8 @@ class Interp:
         g = _lookup(type(obj), "__getitem__")
         if g is not None and self.node_of(g) is not None:
             return self.call_value(g, [obj, idx], {})
+        if isinstance(obj, dict) and isinstance(idx, tuple):
+            idx = _concrete_key(idx)
         if isinstance(idx, Poly):
             if idx.is_const():
                 idx = idx.to_python()
